@@ -151,6 +151,10 @@ def source(tokeniser: 'Tokeniser') -> Generator[Flow4Source | Flow6Source, None,
         offset: str
         ip, netmask, offset = data.split('/')
         yield Flow6Source.make_prefix6(IP.pton(ip), _netmask(netmask, AFI.ipv6), int(offset))
+    else:
+        raise ValueError(
+            f"'{data}' is not a valid flow source\n  Must be an IPv4 or IPv6 prefix (10.0.0.0/24, ::1/128/0)"
+        )
 
 
 def destination(tokeniser: 'Tokeniser') -> Generator[Flow4Destination | Flow6Destination, None, None]:
@@ -172,6 +176,10 @@ def destination(tokeniser: 'Tokeniser') -> Generator[Flow4Destination | Flow6Des
         offset: str
         ip, netmask, offset = data.split('/')
         yield Flow6Destination.make_prefix6(IP.pton(ip), _netmask(netmask, AFI.ipv6), int(offset))
+    else:
+        raise ValueError(
+            f"'{data}' is not a valid flow destination\n  Must be an IPv4 or IPv6 prefix (10.0.0.0/24, ::1/128/0)"
+        )
 
 
 # Expressions
